@@ -293,10 +293,26 @@ func provablyNonNilErr(r *ssa.Return) bool {
 			}
 		}
 	}
+	// wrapping idiom: wrap(err, ...) / fmt.Errorf("%w", err) with err known non-nil
+	cands := []ssa.Value{er}
+	if call, ok := er.(*ssa.Call); ok {
+		for _, a := range call.Call.Args {
+			if isErrorType(a.Type()) {
+				cands = append(cands, a)
+			}
+		}
+	}
 	for _, g := range guardsAtBlock(r.Block()) {
 		bo, ok := g.Cond.(*ssa.BinOp)
 		if !ok {
 			continue
+		}
+		for _, cand := range cands[1:] {
+			if (bo.X == cand && isNilConst(bo.Y)) || (bo.Y == cand && isNilConst(bo.X)) {
+				if (bo.Op == token.NEQ && g.Truth) || (bo.Op == token.EQL && !g.Truth) {
+					return true
+				}
+			}
 		}
 		if (bo.X == er && isNilConst(bo.Y)) || (bo.Y == er && isNilConst(bo.X)) {
 			if (bo.Op == token.NEQ && g.Truth) || (bo.Op == token.EQL && !g.Truth) {
